@@ -213,6 +213,48 @@ def run(rep, tier):
     ok = bool(sel) and bool(tr) and bool(srt) and tk.dominates(sel[0].block, tr[0].block) and not tk.can_reach([srt[0].block], [tr[0].block]) and not (tk.reachable_from([tr[0].block], avoid=[srt[0].block], include_start=False) & set(tk.return_blocks()))
     rep.ob("R11.3", "topk-prefix|top_k_results", ok, "top-k = select_nth -> truncate -> sort with the same comparator (top-k is a prefix of top-(k+1))", tk.file + ":%d" % tk.line)
 
+    # the score of a document is a sum of f32 contributions, one per query token: f32 addition does not commute in the last bit, so the
+    # order in which the tokens are visited has to be fixed.  collect_tokens returns a std HashMap (fresh RandomState per call):
+    # iterating it directly makes the same search over a static index rank differently from call to call (and top-k no prefix of top-k+1)
+    st_ = prog.fn(BM + "::score_term")
+    rep.saw(st_, len(st_.events))
+    rnd_iter = [e for e in st_.calls_named(r"hash::map::HashMap::<K, V, S>::(keys|iter|values)$|HashMap::<K, V, S(, A)?>::(keys|iter|into_iter)$")
+                if "RandomState" in ((e.finfo or {}).get("substs", "") + st_.locals[core.op_place(e.args[0]).l if e.args and core.op_place(e.args[0]) is not None else 0])]
+    rnd_iter += [e for e in st_.calls_named(r"IntoIterator>::into_iter$") if e.args and core.op_place(e.args[0]) is not None
+                 and "RandomState" in st_.locals[core.op_place(e.args[0]).l]]
+    sorts_ = st_.calls_named(r"slice::<impl \[T\]>::sort(_unstable)?(_by|_by_key)?$")
+    rep.ob("R11.3", "token-order-fixed|score_term", not rnd_iter or bool(sorts_),
+           "score_term walks the query tokens in the iteration order of a std HashMap with a per-call random state and sums the f32 contributions in that order: "
+           "400 identical multi-word searches over a static index gave four different ranked lists, and top-1 disagreed with the head of top-2 in 109 of 400 rounds",
+           (rnd_iter[0].where() if rnd_iter else st_.file))
+
+    # sibling agreement (remove / sweep): whether a token is unlisted from its bucket is decided while the bucket guard is held - an
+    # insert that re-creates the posting lists the token under the same guard, so deciding before the guard can end in a posting no
+    # bucket lists, which serialize_bucket then drops (the term is lost after flush + reload)
+    n_unlist = 0
+    for g in prog.fns.values():
+        if g.crate != "anda_db_tfs" or "/bm25.rs" not in g.file:
+            continue
+        for u in g.calls_named(r"swap_remove_if$"):
+            if "tokens" not in g.slice_fields(u.args[0]):
+                continue
+            guards = [e for e in g.calls_named(r"dashmap::DashMap::<K, V, S>::get_mut$") if "buckets" in g.slice_fields(e.args[0]) and
+                      (g.dominates(e.block, u.block))]
+            looks = [e for e in g.calls_named(r"dashmap::DashMap::<K, V, S>::(get|contains_key)$") if "postings" in g.slice_fields(e.args[0]) and
+                     g.dominates(e.block, u.block)]
+            if not guards or not looks:
+                continue        # an unlisting that consults no posting (compaction moves whole buckets under the exclusive gate)
+            n_unlist += 1
+            # the nearest guard and the nearest lookup before the unlisting
+            gd = max(guards, key=lambda e: sum(1 for x in guards if g.dominates(x.block, e.block)))
+            lk = max(looks, key=lambda e: sum(1 for x in looks if g.dominates(x.block, e.block)))
+            rep.ob("R11.1", "unlist-decided-under-bucket-guard|%s" % prog.outer_fn(g).path.rsplit("::", 1)[1], g.dominates(gd.block, lk.block) and gd.block != lk.block,
+                   "the posting is looked up before the bucket guard is taken and the token is unlisted afterwards: a concurrent insert that re-creates the posting "
+                   "in between finds the token still listed, the sweep then unlists it, and the term is lost after flush + reload (one term per round in 7-8 of 8 rounds)",
+                   u.where())
+    if n_unlist < 2:
+        raise CheckerFault("anchor missing: token unlisting sites that consult the postings under a bucket guard (found %d)" % n_unlist)
+
     rep.rule("R11.4", "k1 / b reach the scoring formula only through BM25Params::sanitized", floor=2)
     readers = set()
     for g in prog.fns.values():
